@@ -2,18 +2,20 @@ package mon
 
 import (
 	"bufio"
-	"runtime"
-	"time"
 	"fmt"
+	"io"
+	"log/slog"
 	"math/rand/v2"
 	"os"
 	"os/exec"
 	"reflect"
+	"runtime"
 	"sort"
 	"strconv"
 	"strings"
 	"sync"
 	"sync/atomic"
+	"time"
 
 	"verif/harness/lib"
 	"verif/harness/spec"
@@ -477,6 +479,10 @@ func pairDigest(seed int64, i int) uint64 {
 // c15child: args = seed orderSeed nPairs [single index]; prints "i digest" lines
 // and a final table-snapshot digest.
 func c15child(args []string, _ int64, _ string) int {
+	if os.Getenv("VERIF_C15_SLOG_DEBUG") != "" {
+		// a process-wide standard-library setting made before the library is used
+		slog.SetDefault(slog.New(slog.NewTextHandler(io.Discard, &slog.HandlerOptions{Level: slog.LevelDebug})))
+	}
 	seed, _ := strconv.ParseInt(args[0], 10, 64)
 	orderSeed, _ := strconv.ParseUint(args[1], 10, 64)
 	n, _ := strconv.Atoi(args[2])
@@ -526,8 +532,12 @@ func c15child(args []string, _ int64, _ string) int {
 }
 
 func runChild(mon string, args ...string) (map[int]uint64, string, error) {
+	return runChildEnv(mon, nil, args...)
+}
+
+func runChildEnv(mon string, env []string, args ...string) (map[int]uint64, string, error) {
 	cmd := exec.Command(mon, args...)
-	cmd.Env = os.Environ()
+	cmd.Env = append(os.Environ(), env...)
 	outb, err := cmd.Output()
 	if err != nil {
 		return nil, "", fmt.Errorf("%v: %s", err, clip(string(outb), 400))
@@ -687,7 +697,15 @@ func runC15(r *Run) int {
 		wg.Add(1)
 		go func(k int) {
 			defer wg.Done()
-			results[k], snaps[k], errsC[k] = runChild(monBin, "c15child", fmt.Sprint(r.Seed), fmt.Sprint(k+1), fmt.Sprint(nPairs))
+			// children 2 and 3 run under another process environment: a Japanese POSIX locale, a debug-level default logger
+			var env []string
+			switch k {
+			case 2:
+				env = []string{"LC_ALL=ja_JP.UTF-8", "LANG=ja_JP.UTF-8", "LC_MESSAGES=ja_JP.UTF-8", "TZ=Asia/Tokyo"}
+			case 3:
+				env = []string{"VERIF_C15_SLOG_DEBUG=1", "GODEBUG=", "GOGC=20"}
+			}
+			results[k], snaps[k], errsC[k] = runChildEnv(monBin, env, "c15child", fmt.Sprint(r.Seed), fmt.Sprint(k+1), fmt.Sprint(nPairs))
 		}(k)
 	}
 	wg.Wait()
@@ -759,7 +777,7 @@ func runC15(r *Run) int {
 	r.Extra("exported_field_mutate/query/restore/query_steps", st.mutations.Load())
 	r.Extra("objects_whose_unexported_state_fingerprint_changed_(informational,_not_judged)", st.namesChanged.Load())
 	r.Extra("process_level", map[string]int{"child_processes": K, "pairs_per_child": nPairs, "cold_single_pair_processes": nCold})
-	return r.Finish("per-object monitor: seeded random sequences (10-100 quick / 10-200 thorough) over {Score, Severity, GetError, Encode, String, BaseMetrics, TemporalMetrics, IsEmpty, report.New* in a random language, report + ExportWithString, exported embedded objects} on objects from successful decodes, receivers left behind by failed decodes and constructors (all six types): exported fields and embedded-pointer identity compared after every operation, every result compared with the first result of that (object, operation), final observation vector compared with the object's own before the history and with twins obtained before and after it; mutate-field/query/restore/query steps against a fresh twin; process level: K child processes execute the same multiset of (vector, operation) pairs in different orders with interleaved unrelated queries, plus cold single-pair processes - all digests equal; API-level snapshot of all package tables before/after; a third of the objects have a twin that stays alive and unqueried until the end of the workload and is observed then; the second half of the histories runs under forced garbage collections; distinct non-trivial = distinct objects put through a history",
+	return r.Finish("per-object monitor: seeded random sequences (10-100 quick / 10-200 thorough) over {Score, Severity, GetError, Encode, String, BaseMetrics, TemporalMetrics, IsEmpty, report.New* in a random language, report + ExportWithString, exported embedded objects} on objects from successful decodes, receivers left behind by failed decodes and constructors (all six types): exported fields and embedded-pointer identity compared after every operation, every result compared with the first result of that (object, operation), final observation vector compared with the object's own before the history and with twins obtained before and after it; mutate-field/query/restore/query steps against a fresh twin; process level: K child processes execute the same multiset of (vector, operation) pairs in different orders with interleaved unrelated queries (one of them under a Japanese POSIX locale, one with a debug-level default logger and GOGC=20), plus cold single-pair processes - all digests equal; API-level snapshot of all package tables before/after; a third of the objects have a twin that stays alive and unqueried until the end of the workload and is observed then; the second half of the histories runs under forced garbage collections; distinct non-trivial = distinct objects put through a history",
 		false, int64(r.SetSize("objects")), int64(nObj), int64(nObj/2), TrustedBase)
 }
 
